@@ -237,6 +237,12 @@ contract("JobQueue._check_completions", file=F,
                  "forall(x, OUT(self), implies(x not in _seen2, OUT(self)[x].g_done == loop_old(OUT(self)[x].g_done)))",
                  "subset(_seen2, keys(OUT(self)))",
                  "forall(r, AsyncJob, implies(old(r.g_done), r.g_done)) and forall(r, AsyncJob, implies(loop_old(r.g_done), r.g_done))",
+                 # C04: "failed" means a non-zero return code - every job seen complete with one is in the failed set (signals give negative codes),
+                 # and the set only grows
+                 "forall(x, _seen2, implies(OUT(self)[x].g_done and val(OUT(self)[x].return_code) != 0, x in failed_jobs))",
+                 "subset(loop_old(failed_jobs), failed_jobs)",
+                 # ... and nothing else enters it: a name added in this pass belongs to a job seen complete with a non-zero code
+                 "forall(n, failed_jobs, n in loop_old(failed_jobs) or (n in _seen2 and OUT(self)[n].g_done and val(OUT(self)[n].return_code) != 0))",
              ]},
              3: {"invariant": CC_COMMON + QUEUED_OK + [
                  NOT_CANCELED,
